@@ -88,7 +88,7 @@ class Observer:
         pass
 
 
-def drive(ctx, cfg, observers=(), dom=None, algo=None, T=None, last_point=True, times=None, rewards=None):
+def drive(ctx, cfg, observers=(), dom=None, algo=None, T=None, last_point=True, times=None, rewards=None, stop_on_none=False):
     d = cfg["d"]
     if dom is None:
         dom = sym_box(ctx, d)
@@ -101,6 +101,9 @@ def drive(ctx, cfg, observers=(), dom=None, algo=None, T=None, last_point=True, 
     for k in range(1, T + 1):
         t = times[k - 1] if times is not None else k
         p = ctx.call("pull", algo.pull, t)
+        if p is None and stop_on_none:
+            ctx.count("run_stopped_when_pull_returned_None")
+            break
         for ob in observers:
             ob.after_pull(k, p)
         r = rewards[k - 1] if rewards is not None else ctx.real("r%d" % k)
